@@ -35,7 +35,10 @@ Preds == << N(1), N(2), N(0), NumE(Rat(3, 2)), Bin("div", N(0), N(0)), LastE, Bi
             ChildB, AttrX, Bin("eq", Rel(<<Self>>), Lit(<<"1">>)), Lit(<<"s">>), Lit(<<>>),
             Call(<<"t","r","u","e">>, <<>>), Call(<<"f","a","l","s","e">>, <<>>),
             Rel(<<StepP("child", T_name("", <<"b">>), <<N(1)>>)>>), Bin("eq", CountE(ChildB), N(2)),
-            Bin("eq", CountE(Rel(<<Step("preceding-sibling", T_any)>>)), N(1)) >>
+            Bin("eq", CountE(Rel(<<Step("preceding-sibling", T_any)>>)), N(1)),
+            \* numeric predicates whose value depends on the context node
+            PosE, Bin("add", CountE(Rel(<<Step("preceding-sibling", T_any)>>)), N(1)), Bin("sub", N(3), PosE),
+            Call(<<"n","u","m","b","e","r">>, <<AttrX>>), Bin("sub", Bin("add", LastE, N(1)), PosE) >>
 PredAxes == IF Scale = "small"
             THEN <<"child", "descendant", "following-sibling", "ancestor", "preceding-sibling", "preceding", "attribute">>
             ELSE <<"child", "descendant", "descendant-or-self", "following-sibling", "following",
@@ -64,7 +67,14 @@ FilterForms ==
    \cup {Filter(pr, <<p, q>>, <<>>) : pr \in {AllB, AncAll}, p \in Seq2Set(TwoPredPool), q \in Seq2Set(TwoPredPool)}
    \cup {Filter(Bin("union", AllB, AncAll), <<p>>, <<Step("child", T_any)>>) : p \in {N(1), N(2), LastE}}
 
-PoolC02 == SetToSeq(RelForms \cup FilterForms)
+\* the classic: //b[1] is /descendant-or-self::node()/child::b[1] (first b of every parent), not (//b)[1]
+Classic == { Abs(<<DoS, StepP("child", T_name("", <<"b">>), <<p>>)>>) : p \in {N(1), N(2), LastE, Bin("eq", PosE, LastE)} }
+           \cup { Abs(<<StepP("descendant", T_name("", <<"b">>), <<p>>)>>) : p \in {N(1), N(2), LastE} }
+           \cup { Abs(<<DoS, StepP("child", T_any, <<N(1)>>), StepP("child", T_any, <<LastE>>)>>),
+                  Abs(<<DoS, StepP("child", T_name("", <<"b">>), <<Rel(<<StepP("preceding-sibling", T_any, <<N(1)>>)>>)>>)>>),
+                  Abs(<<DoS, StepP("child", T_any, <<Bin("eq", CountE(Rel(<<StepP("following-sibling", T_any, <<LastE>>)>>)), N(1))>>)>>),
+                  Abs(<<DoS, StepP("attribute", T_any, <<N(1)>>)>>), Abs(<<DoS, StepP("child", T_text, <<N(1)>>)>>) }
+PoolC02 == SetToSeq(RelForms \cup FilterForms \cup Classic)
 PoolC02Abs == SetToSeq(AbsForms)
 
 (***************************************************************************)
@@ -119,7 +129,13 @@ UnionLaws == Complete =>
     /\ EvalAt(n, U(a, a)) = EvalAt(n, a)
     /\ EvalAt(n, CountE(U(a, b))).v = NInt(Cardinality(A) + Cardinality(B) - Cardinality(A \cap B))
     /\ \A c \in {AllB, PrecAll, Rel(<<Self>>)} : EvalAt(n, U(U(a, b), c)) = EvalAt(n, U(a, U(b, c)))
-PoolC03 == SetToSeq(OpSet \cup {U(a, b) : a \in OpSet, b \in OpSet}
+\* predicate-bearing steps taken from many (nested) context nodes: the merged result must be ordered
+MultiCtx == { Abs(<<DoS, StepP("child", t, <<p>>)>>) : t \in {T_any, T_name("", <<"b">>), T_node},
+                                                      p \in {Call(<<"t","r","u","e">>, <<>>), LastE, N(1), AttrX, Bin("gt", PosE, N(0))} }
+            \cup { Rel(<<Step("descendant-or-self", T_any), StepP(ax, T_any, <<p>>)>>) : ax \in {"child", "following-sibling", "preceding-sibling", "ancestor", "attribute", "parent"},
+                                                      p \in {Call(<<"t","r","u","e">>, <<>>), LastE, N(1)} }
+            \cup { Rel(<<Step("ancestor-or-self", T_node), StepP(ax, T_node, <<p>>)>>) : ax \in {"child", "descendant", "following-sibling"}, p \in {Call(<<"t","r","u","e">>, <<>>), N(1)} }
+PoolC03 == SetToSeq(MultiCtx \cup OpSet \cup {U(a, b) : a \in OpSet, b \in OpSet}
                     \cup {U(U(a, b), c) : a \in OpSet, b \in {AncAll, PrecAll}, c \in {AllB, Rel(<<Self>>)}}
                     \cup {U(a, U(b, c)) : a \in OpSet, b \in {AncAll, PrecAll}, c \in {AllB, Rel(<<Self>>)}}
                     \cup {CountE(U(a, b)) : a \in OpSet, b \in OpSet}
